@@ -43,7 +43,9 @@ func genOpt(r *Rng) Opt {
 	return o
 }
 
-var badKinds = []string{"msg", "fR", "fS", "fA", "sL", "zS", "smA", "smR", "udA", "udR", "ncA", "ncR", "tS", "lS", "nS", "tK", "nK", "bPh", "tor", "fS", "msg", "fR"}
+var badKinds = []string{"msg", "fR", "fS", "fA", "sL", "zS", "smA", "smR", "udA", "udR", "ncA", "ncR", "tS", "lS", "nS", "tK", "nK", "bPh", "tor", "fS", "msg", "fR", "noR", "noA", "lK", "noRB", "torR"}
+
+var secondDamage = []string{"tK", "nK", "tS", "lS", "nS", "sL", "fS", "msg", "sL", "tK"}
 
 func genBad(r *Rng, o Opt) Entry {
 	k := badKinds[r.Intn(len(badKinds))]
@@ -63,6 +65,9 @@ func genBad(r *Rng, o Opt) Entry {
 	}
 	if k == "fS" && r.Chance(1, 3) {
 		e.P = 248 + r.Intn(8) // the top bits: S >= 2^253 classes
+	}
+	if r.Chance(1, 8) {
+		e.K2 = secondDamage[r.Intn(len(secondDamage))]
 	}
 	return e
 }
@@ -136,7 +141,18 @@ func genEntries(r *Rng, n int, o Opt) (es []Entry, profile string) {
 		b.Key, b.ML = es[i].Key, es[i].ML
 		es[i] = b
 	}
-	switch r.Pick(7, 5, 3, 2, 2, 1, 2) {
+	switch r.Pick(7, 5, 3, 2, 2, 1, 2, 1) {
+	case 7:
+		// nearly every entry is rejected up front by the scalar rule (S >= L);
+		// what is left of the chunk must still be judged correctly
+		profile = "sLheavy"
+		for i := range es {
+			es[i] = Entry{K: "sL", Key: es[i].Key, ML: es[i].ML}
+		}
+		for j := 1 + r.Intn(2); j > 0; j-- {
+			i := interestingPos(r, n)
+			es[i] = Entry{K: []string{"noR", "noA", "msg", "ok", "noRB", "torR", "smRv", "tor0", "noRB", "torR"}[r.Intn(10)], P: r.Intn(1 << 16), Q: r.Intn(1 << 16), Key: es[i].Key, ML: es[i].ML}
+		}
 	case 6:
 		// one bad entry, repeated verbatim at the heads of later chunks and at
 		// a few other places: state keyed on an entry's content (a memo, a
